@@ -129,6 +129,29 @@ def plan_c13(K, ctx):
     }
 
 
+def exotic_stage(K, ctx, tag, want_op, judge):
+    """atom names the TLA+ side cannot spell (beyond the BMP, combining marks, rare scripts), generated by `nv drive names`"""
+    allc = os.path.join(ctx.rundir, f"{tag}_all.cmds.ndjson")
+    p = K.sh([K.NV, "drive", "names", str(ctx.seed), "0", allc], 600)
+    if p.returncode != 0:
+        raise K.ToolError("nv drive names failed: " + (p.stdout or ""))
+
+    def one(fmt):
+        def run():
+            cmds = os.path.join(ctx.rundir, f"{tag}_{fmt}.cmds.ndjson")
+            obs = os.path.join(ctx.rundir, f"{tag}_{fmt}.obs.ndjson")
+            with open(cmds, "w", encoding="utf-8") as g:
+                for line in open(allc, encoding="utf-8"):
+                    c = json.loads(line)
+                    if c["op"] == want_op and c["fmt"] == fmt:
+                        g.write(line)
+            K.account(ctx, cmds, lambda c: True)
+            K.run_exec(ctx, cmds, obs)
+            K.run_judge(ctx, judge, fmt, obs, f"{tag}_{fmt}_judge", shards=2)
+        return run
+    K.parallel([one(f) for f in K.FORMATS])
+
+
 # ------------------------------------------------------------------------------------------------ C01
 def nontrivial_value(c):
     v = c.get("v", {})
@@ -150,6 +173,7 @@ def plan_c01(K, ctx):
     dcfg = ("SPECIFICATION Spec\n" + consts(MAXD=64, LONGN=60) + "INVARIANT Emit\nINVARIANT ModelRoundTrip\nCHECK_DEADLOCK FALSE\n")
     K.parallel([(lambda f=f: K.pipeline(ctx, f, "c01deep", "MC_Deep", dcfg, "J_C01", nontrivial_value, workers=4,
                                         simulate=(3 if ctx.tier == "quick" else 30, 66), shards=4)) for f in K.FORMATS])
+    exotic_stage(K, ctx, "c01exotic", "rt_enum", "J_C01")
     ctx.exhaustive = False
     return {
         "note": "EnumFormat.tla + EnumParser.tla (M1) on the dumped vocabulary: model round trip checked by TLC for every value of U1 (all 30 "
@@ -317,7 +341,7 @@ def garbage_plan(K, ctx, prop):
 # ------------------------------------------------------------------------------------------------ C06 / C07
 def eqhash_plan(K, ctx, prop):
     quick = ctx.tier == "quick"
-    reps = 4 if quick else 24
+    reps = 4 if quick else 8
     cfg = ("SPECIFICATION Spec\n" + consts(DEPTH=2, TIER=f'"{ctx.tier}"', SEEDS=16, SEED=ctx.seed, ORDERED_HASH="FALSE") +
            "INVARIANT EqIsSemantic\nINVARIANT EqSymmetric\nINVARIANT EqReflexive\nINVARIANT EqualHashEqual\nINVARIANT Emit\nCHECK_DEADLOCK FALSE\n")
     rnd = random.Random(ctx.seed)
@@ -386,7 +410,7 @@ def plan_c16(K, ctx):
         with open(cmds, "w", encoding="utf-8") as g:
             for x in lines:
                 c = json.loads(x)
-                c["reps"] = 3 if quick else 6
+                c["reps"] = 3 if quick else 4
                 g.write(json.dumps(c, ensure_ascii=False) + "\n")
 
     # one judge over the whole history (M6 needs every rendering in one place): no sharding
@@ -496,6 +520,7 @@ def plan_c03(K, ctx):
             K.run_judge(ctx, "J_Pipe", fmt, obs, f"c03_{fmt}_judge", shards=3 if quick else 6)
         return run
     K.parallel([one(f) for f in K.FORMATS])
+    exotic_stage(K, ctx, "c03exotic", "pipe_v", "J_Pipe")
     ctx.exhaustive = not quick
     return {
         "note": "MC_Vocab.tla checks on the dumped tables that the enum and the lexical instance of each format describe the same keyword for all "
@@ -519,6 +544,7 @@ def plan_c02(K, ctx):
 
     K.parallel([(lambda f=f: K.pipeline(ctx, f, "c02", "MC_C02", cfg, "J_C02", nontrivial, workers=6,
                                         shards=5 if ctx.tier == "thorough" else 2)) for f in K.FORMATS])
+    exotic_stage(K, ctx, "c02exotic", "rt_lex", "J_C02")
     ctx.exhaustive = ctx.tier == "thorough"
     return {
         "note": "LexParser.tla (M8: window [begin, right) cut by budget / truth / stamp / punctuation, recursive segmenters returning lengths) and "
